@@ -136,6 +136,26 @@ def place_float(real_shapes, box, cb_box):
     return fmt(out.position_x, out.position_y, [shape_wire(s) for s in real_shapes])
 
 
+def call_float_width(args):
+    """The real `float_width` (decorated by handle_min_max_width) on a mock float."""
+    from weasyprint.layout import float as float_
+    boxes = mk.boxes_mod()
+    width, min_w, max_w, min_c, max_c, cb_w, spacing = args
+    box = boxes.BlockBox('div', mk.Style({'float': 'left'}), None, [])
+    box.width, box.min_width, box.max_width, box._minc, box._maxc = width, min_w, max_w, min_c, max_c
+    (box.margin_left, box.margin_right, box.padding_left, box.padding_right, box.border_left_width,
+     box.border_right_width) = spacing
+    box.position_x = F(0)
+    cb = mk.real_cb([F(0), cb_w, False])
+
+    def run_it():
+        with mk.patched_content_widths():
+            float_.float_width(box, None, cb)
+        return box.width
+    out = mk.outcome(run_it)
+    return out if isinstance(out, str) else sx.atom(out)
+
+
 # ---------------------------------------------------------------------------------------------
 # absolute: function level
 
@@ -355,7 +375,16 @@ def judge_float_place(shapes, box, cb, impl, check_clear=True):
     mw, mh = bw + ml + mr, bh + mt + mb
     cx, cw, rtl = cb
     if bh == 0:
-        return None            # known finding zero-height-float-at-origin: judged by its own replay
+        # a float whose border box is empty: rules 4, 5 and "at its side, inside the containing block when it
+        # fits"; that it may lie over earlier floats is the known finding zero-height-float-ignores-other-floats
+        if y < py:
+            return f'float top {y} higher than its static position {py}'
+        if shapes and y < shapes[-1][1]:
+            return f'float top {y} higher than the previous float top {shapes[-1][1]}'
+        want = cx if float_ == 'left' else cx + cw - mw
+        if x != want:
+            return f'float without border-box height at x={x}, expected the {float_} edge of its containing block ({want})'
+        return None
     if any(s[3] <= 0 or s[2] < 0 for s in shapes) or mh <= 0 or mw < 0:
         return None            # degenerate geometry: the clauses below are about boxes with area
     for s in shapes:
@@ -424,11 +453,13 @@ AVOID_BRANCHES = (
 class C11(PropCheck):
     id = 'C11'
     extractors = (float_tests.generate,)
-    modules = ('WpModel.Props.C11', 'WpModel.Props.C11Flow', 'WpModel.Witness.C11')
+    modules = ('WpModel.Props.C11', 'WpModel.Props.C11Flow', 'WpModel.Props.C11Inline', 'WpModel.Witness.C11')
     trusted_base = (
-        'modelled, not verified: layout/float.py avoid_collisions / find_float_position / get_clearance, '
+        'modelled, not verified: layout/float.py avoid_collisions / find_float_position / get_clearance / float_width, '
         'layout/absolute.py absolute_width / absolute_height / absolute_replaced / absolute_block translation, '
-        'layout/block.py relative_positioning (hand transcriptions in Model/Floats.lean, Model/Absolute.lean)',
+        'layout/block.py relative_positioning, the float-list plumbing of get_next_linebox / '
+        'finish_block_formatting_context, layout_fixed_boxes (hand transcriptions in Model/Floats.lean, '
+        'Model/Absolute.lean, Model/FloatFlow.lean, Model/FixedPages.lean)',
         'mock boxes: real box classes with dict styles and Fraction used values; shrink_to_fit is the real function '
         'over patched min/max-content widths',
     )
@@ -440,6 +471,7 @@ class C11(PropCheck):
     # -- correspondence ---------------------------------------------------------------------
     def correspondence(self, run):
         docs.quiet()
+        c11_docs.sec_regressions(run)
         self.sec_float_seq(run)
         self.sec_avoid_wild(run)
         self.sec_clearance(run)
@@ -451,6 +483,7 @@ class C11(PropCheck):
         c11_docs.sec_float_docs(run)
         c11_docs.sec_abs_docs(run)
         c11_docs.sec_fixed_docs(run)
+        c11_docs.sec_fixed_area_docs(run)
         c11_docs.sec_wide_docs(run)
 
     def sec_float_seq(self, run):
@@ -547,35 +580,34 @@ class C11(PropCheck):
         self.flush_pending(run, sec, pending)
 
     def sec_float_width(self, run):
-        """`float_width` (under handle_min_max_width) with the real shrink_to_fit over patched content widths."""
+        """`float_width` (under handle_min_max_width) with the real shrink_to_fit over patched content widths, as
+        float_layout calls it: for every non-replaced float, auto or specified width."""
         from weasyprint.layout import float as float_
         rng = run.rng
         boxes = mk.boxes_mod()
         sec = run.section(
-            'float-width', 'float_width on auto-width floats: random min/max-content widths, min-width, max-width '
-            '(also min > max), containing block widths; non-trivial = a min/max constraint is active')
-        for _ in range(run.n(600, 10000)):
+            'float-width', 'float_width on floats with auto and specified widths: random min/max-content widths, '
+            'min-width, max-width (also min > max), own margins / paddings / borders (also negative margins), '
+            'containing block widths; non-trivial = a min/max constraint is active or the float\'s own spacing is not 0')
+        for _ in range(run.n(900, 15000)):
             min_w = rng.choice([F(0), F(0), mk.dyadic(rng, 0, 80)])
             max_w = rng.choice([math.inf, math.inf, mk.dyadic(rng, 0, 120)])
             min_c = mk.dyadic(rng, 0, 60)
             max_c = min_c + rng.choice([F(0), mk.dyadic(rng, 0, 150)])
             cb_w = rng.choice([F(0), F(100), mk.dyadic(rng, 0, 300)])
-            box = boxes.BlockBox('div', mk.Style({'float': 'left'}), None, [])
-            box.width, box.min_width, box.max_width, box._minc, box._maxc = 'auto', min_w, max_w, min_c, max_c
-            box.margin_left = box.margin_right = F(0)
-            cb = mk.real_cb([F(0), cb_w, False])
+            width = 'auto' if rng.random() < 0.6 else mk.dyadic(rng, 0, 200)
 
-            def run_it():
-                with mk.patched_content_widths():
-                    float_.float_width(box, None, cb)
-                return box.width
-            out = mk.outcome(run_it)
-            out = out if isinstance(out, str) else sx.atom(out)
-            natural = min(max(min_c, cb_w), max_c)
-            sec.add(sx.line('floatwidth', min_w, max_w, min_c, max_c, cb_w), out,
-                    meta={'kind': 'floatwidth', 'args': [min_w, max_w, min_c, max_c, cb_w]},
-                    nontrivial=natural < min_w or natural > max_w,
-                    tags=['below-min' if natural < min_w else 'above-max' if natural > max_w else 'unclamped'])
+            def small(neg=False):
+                r = rng.random()
+                return F(0) if r < 0.5 else -mk.dyadic(rng, 0, 10) if neg and r < 0.58 else mk.dyadic(rng, 0, 20)
+            spacing = [small(True), small(True), small(), small(), small(), small()]     # ml mr pl pr bl br
+            args = [width, min_w, max_w, min_c, max_c, cb_w, spacing]
+            out = call_float_width(args)
+            natural = width if width != 'auto' else min(max(min_c, cb_w - sum(spacing)), max_c)
+            sec.add(sx.line('floatwidth', *args), out, meta={'kind': 'floatwidth', 'args': args},
+                    nontrivial=natural < min_w or natural > max_w or any(spacing),
+                    tags=['auto' if width == 'auto' else 'specified',
+                          'below-min' if natural < min_w else 'above-max' if natural > max_w else 'unclamped'])
 
     def sec_clearance(self, run):
         rng = run.rng
@@ -678,18 +710,8 @@ class C11(PropCheck):
         if kind == 'relpos':
             return judge_rel(meta, impl)
         if kind == 'floatwidth':
-            min_w, max_w, min_c, max_c, cb_w = meta['args']
-            if impl.startswith('err:'):
-                return f'float_width raised {impl}'
-            w = F(impl)
-            if w < min_w:
-                return f'used width {w} of an auto-width float is below min-width {min_w}'
-            if min_w <= max_w and w > max_w:
-                return f'used width {w} of an auto-width float is above max-width {max_w}'
-            if min_w <= min(max(min_c, cb_w), max_c) <= max_w and w != min(max(min_c, cb_w), max_c):
-                return f'used width {w} is not the shrink-to-fit width {min(max(min_c, cb_w), max_c)}'
-            return None
-        if kind in ('float-doc', 'abs-doc', 'fixed-doc', 'wide-doc'):
+            return judge_float_width(meta['args'], impl)
+        if kind in ('float-doc', 'abs-doc', 'fixed-doc', 'wide-doc', 'regression', 'fixed-area-doc'):
             return c11_docs.judge(meta, impl, d.get('line'))
         return None
 
@@ -707,7 +729,9 @@ class C11(PropCheck):
         if 'html' in inp:
             return c11_docs.replay_html(inp)
         meta = inp.get('meta') or {}
-        if meta.get('kind') in ('float-doc', 'abs-doc', 'fixed-doc', 'fixed-late', 'wide-doc'):
+        if meta.get('kind') == 'regression':
+            return c11_docs.regression_violation(meta['id'])
+        if meta.get('kind') in ('float-doc', 'abs-doc', 'fixed-doc', 'fixed-late', 'wide-doc', 'fixed-area-doc'):
             return c11_docs.replay_html({'kind': meta['kind'], 'doc': meta['doc']})
         if meta.get('kind'):
             meta = unjson(meta)
@@ -715,6 +739,25 @@ class C11(PropCheck):
             impl = recompute(meta)
             return self.judge({'meta': meta, 'impl': impl, 'line': line, 'model': inp.get('model')})
         return None
+
+
+def judge_float_width(args, impl):
+    """CSS 2.1 §10.3.5 + §10.4 on the used width of a float."""
+    width, min_w, max_w, min_c, max_c, cb_w, spacing = args
+    if impl.startswith('err:'):
+        return f'float_width raised {impl}'
+    w = F(impl)
+    if w < min_w:
+        return f'used width {w} of a float (width: {width}) is below min-width {min_w}'
+    if min_w <= max_w and w > max_w:
+        return f'used width {w} of a float (width: {width}) is above max-width {max_w}'
+    natural = width if width != 'auto' else min(max(min_c, cb_w - sum(spacing)), max_c)
+    if min_w <= natural <= max_w and w != natural:
+        if width == 'auto':
+            return (f'used width {w} of an auto-width float is not the shrink-to-fit width {natural} for the width '
+                    f'{cb_w - sum(spacing)} left by its own margins, borders and paddings in {cb_w}')
+        return f'used width {w} is not the specified width {width}'
+    return None
 
 
 def judge_clearance(meta, impl):
@@ -733,8 +776,7 @@ def judge_clearance(meta, impl):
 
 
 def judge_abs(kind, meta, impl):
-    """The constraint equation stated directly on the implementation's used values.  Cases listed in
-    the known finding abs-auto-margin-ignores-opposite-margin are excluded by their signature."""
+    """The constraint equation stated directly on the implementation's used values, every auto pattern."""
     if impl.startswith('err:'):
         return f'{kind} raised {impl}'
     out = sx.loads_line(impl)
@@ -744,19 +786,24 @@ def judge_abs(kind, meta, impl):
         cb_x, cb_w = meta['cb_x'], meta['cb_w']
         border_left = x + uml
         border_right = border_left + pl + pr + bl + br + w
-        if known_abs_margin_case(left, right, width, ml, mr, meta['ltr']):
-            return None
         if width != 'auto' and w != min(max(width, min_w), max_w) and max_w >= min_w:
             return f'used width {w} is not the specified width {width} clamped to [{min_w}, {max_w}]'
         ltr = meta['ltr']
         over = 'auto' not in (left, right, width, ml, mr)
-        if left != 'auto' and not (over and not ltr):
+        if left != 'auto':
             if border_left != cb_x + left + uml:
                 return f'left edge: border box starts at {border_left}, expected cb_x + left + margin-left'
-        if right != 'auto' and left == 'auto' or (over and not ltr):
+        if right != 'auto':
             if border_right + umr != cb_x + cb_w - right:
                 return (f'right edge: margin box ends at {border_right + umr}, expected cb right edge - right = '
-                        f'{cb_x + cb_w - right}')
+                        f'{cb_x + cb_w - right}: left + margins + borders + paddings + width + right != width of '
+                        f'the containing block')
+        if 'auto' not in (left, right, width):
+            # a specified margin is kept unless nothing is auto (then the end margin is re-solved)
+            if ml != 'auto' and (mr == 'auto' or ltr) and uml != ml:
+                return f'specified margin-left {ml} became {uml}'
+            if mr != 'auto' and (ml == 'auto' or not ltr) and umr != mr:
+                return f'specified margin-right {mr} became {umr}'
         if left == 'auto' and right == 'auto' and ltr and x != px:
             return f'static position not kept: {x} != {px}'
         return None
@@ -765,14 +812,18 @@ def judge_abs(kind, meta, impl):
         umt, umb, y = F(out[1]), F(out[2]), F(out[5])
         h = meta['used_h'] if out[0] == 'auto' else F(out[0])
         cb_y, cb_h = meta['cb_y'], meta['cb_h']
-        if 'auto' not in (top, bottom, height) and mt == 'auto' and mb != 'auto' and mb != 0:
-            return None     # known finding
         if top != 'auto' and y != cb_y + top:
             return f'top edge: margin box starts at {y}, expected {cb_y + top}'
-        if top == 'auto' and bottom != 'auto':
+        if bottom != 'auto':
             end = y + umt + umb + pt + pb + bt + bb + h
             if end != cb_y + cb_h - bottom:
-                return f'bottom edge: margin box ends at {end}, expected {cb_y + cb_h - bottom}'
+                return (f'bottom edge: margin box ends at {end}, expected {cb_y + cb_h - bottom}: top + margins + '
+                        f'borders + paddings + height + bottom != height of the containing block')
+        if 'auto' not in (top, bottom, height):
+            if mt != 'auto' and umt != mt:
+                return f'specified margin-top {mt} became {umt}'
+            if mb != 'auto' and mt == 'auto' and umb != mb:
+                return f'specified margin-bottom {mb} became {umb}'
         if top == 'auto' and bottom == 'auto' and y != py:
             return f'static position not kept: {y} != {py}'
         return None
@@ -784,14 +835,14 @@ def judge_abs(kind, meta, impl):
             return f'absolute_replaced left an auto value: {impl}'
         ul, ur, ut, ub, uml, umr, umt, umb, x, y = (F(v) for v in out)
         bw_, bh_ = width + pl + pr + bl + br, height + pt + pb + bt + bb
-        one_auto_h = 'auto' not in (left, right) and [ml, mr].count('auto') == 1
-        if not (one_auto_h and (mr if ml == 'auto' else ml) != 0):
-            if ul + uml + bw_ + umr + ur != cb_w:
-                return f'left + margins + border box + right = {ul + uml + bw_ + umr + ur}, containing block width {cb_w}'
-        one_auto_v = 'auto' not in (top, bottom) and [mt, mb].count('auto') == 1
-        if not (one_auto_v and (mb if mt == 'auto' else mt) != 0):
-            if ut + umt + bh_ + umb + ub != cb_h:
-                return f'top + margins + border box + bottom = {ut + umt + bh_ + umb + ub}, containing block height {cb_h}'
+        if ul + uml + bw_ + umr + ur != cb_w:
+            return f'left + margins + border box + right = {ul + uml + bw_ + umr + ur}, containing block width {cb_w}'
+        if ut + umt + bh_ + umb + ub != cb_h:
+            return f'top + margins + border box + bottom = {ut + umt + bh_ + umb + ub}, containing block height {cb_h}'
+        for name, given, used in (('margin-left', ml, uml), ('margin-right', mr, umr), ('margin-top', mt, umt),
+                                  ('margin-bottom', mb, umb)):
+            if given != 'auto' and used != given:
+                return f'specified {name} {given} became {used}'
         over_h = 'auto' not in (left, right, ml, mr)
         if left != 'auto' and not (over_h and not ltr) and ul != left:
             return f'specified left {left} became {ul}'
@@ -809,17 +860,6 @@ def judge_abs(kind, meta, impl):
             return f'auto margins not equal: {uml} / {umr}'
         return None
     return None
-
-
-def known_abs_margin_case(left, right, width, ml, mr, ltr):
-    """Signature of the known finding: left, right and width given; one auto margin or none (rtl)."""
-    if 'auto' in (left, right, width):
-        return False
-    if ml == 'auto' and mr != 'auto' and mr != 0:
-        return True
-    if ml != 'auto' and mr != 'auto' and not ltr and mr != 0:
-        return True
-    return False
 
 
 def judge_rel(meta, impl):
@@ -873,6 +913,8 @@ def recompute(meta):
         return call_abs_replaced(meta['wire'], meta['ltr'], *meta['cb'])
     if kind == 'relpos':
         return call_relative(meta['tree'], meta['cb_w'], meta['cb_h'])
+    if kind == 'floatwidth':
+        return call_float_width(meta['args'])
     return ''
 
 
@@ -881,36 +923,45 @@ PROP = C11()
 MANIFEST = {
     'design_ref': 'DESIGN.md §4 C11',
     'technique': 'Lean 4 theorems over hand-written models of float.py (avoid_collisions, find_float_position, '
-                 'get_clearance, float_width, the front and placement parts of float_layout), inline.py (get_next_linebox '
-                 'loop, text_align, floats met inside a line), block.py (clearance from the collapsed margin, BFC roots / '
-                 'replaced blocks / tables next to floats, relative_positioning), absolute.py (absolute_width with its '
-                 'min/max wrapper, absolute_height, absolute_replaced, absolute_block translation, containing-block '
-                 'choice) and the fixed-box plumbing of make_page / layout_fixed_boxes; the three arithmetic tests of '
-                 'avoid_collisions are regenerated from the source (AST) on every run; exact executable correspondence '
-                 'with the real functions (mock boxes, Fractions) and with rendered documents; a verified trace checker '
-                 '(checkEvents, proved sound, complete on floats and accepting everything the model produces) run on '
-                 'rendered wide-grammar documents whose lines are broken by the real line breaker',
+                 'get_clearance, float_width under its min/max wrapper, the front and placement parts of float_layout '
+                 'with the two float lists it reads: context.excluded_shapes and the top of '
+                 'context._excluded_shapes_lists), inline.py (get_next_linebox loop with its restarts, text_align, floats '
+                 'met inside a line), block.py (clearance from the collapsed margin, BFC roots / replaced blocks / tables '
+                 'next to floats, relative_positioning), absolute.py (absolute_width with its min/max wrapper, '
+                 'absolute_height, absolute_replaced, absolute_block translation, containing-block choice) and the '
+                 'fixed-box plumbing of make_page / layout_fixed_boxes (fixed boxes nested in fixed boxes, pages whose '
+                 'page areas differ); the three arithmetic tests of avoid_collisions are regenerated from the source (AST) '
+                 'on every run; exact executable correspondence with the real functions (mock boxes, Fractions) and with '
+                 'rendered documents; a verified trace checker (checkEvents, proved sound, complete on floats and '
+                 'accepting everything the model produces) run on rendered wide-grammar documents whose lines are broken '
+                 'by the real line breaker; the committed inputs of repaired findings are the first correspondence section',
     'text': 'Unbounded theorems: the collision test is open-interval overlap; the avoidance loop terminates within '
             'len(shapes)+1 iterations; a box that fits the returned width overlaps no float, lies inside the containing '
             'block and is not above the request; every skipped position was blocked; the loop never gives up among floats '
-            'with area; float side / top rules; after any sequence of placements — and after any document of floats, '
-            'paragraphs, BFC roots, images, tables and blocks with collapsing margins laid out by the flow model — the '
-            'floats are pairwise disjoint with tops in document order, and the verified checker accepts them; clearance is '
-            'the least sufficient amount and is added to the collapsed position; a float met in a line is never above the '
-            'line, and after a deferred float every float of the line is deferred; get_next_linebox terminates; the '
-            'containing block is the nearest positioned ancestor else the page; a collected fixed box is laid out on every '
-            'page at the same place; the absolute constraint equations for every auto pattern in ltr and rtl (outside the '
-            'listed defect cases), static positions, centring, shrink-to-fit, min/max re-entry; absolute_replaced total '
-            'with exact halves; relative positioning is a translation by the CSS 2.1 offset and the identity elsewhere.',
+            'with area; float side / top rules for every float (empty border boxes included); after any sequence of '
+            'placements — and after any document of block-level floats, floats met inside the lines of paragraphs (lines '
+            'started again included), BFC roots, images, tables and blocks with collapsing margins laid out by the flow '
+            'model — all the floats are pairwise disjoint with tops in document order, and the verified checker accepts '
+            'them; clearance is the least sufficient amount and is added to the collapsed position; a float met in a line '
+            'is never above the line, and after a deferred float every float of the line is deferred; get_next_linebox '
+            'terminates; the used width of a float respects min/max-width and an auto-width float leaves room for its own '
+            'margins, borders and paddings; the containing block is the nearest positioned ancestor else the page; a '
+            'collected fixed box is laid out on every page, and every fixed box drawn on a page — nested ones included — is '
+            'placed against the area of that page; the absolute constraint equations (CSS 2.1 10.3.7 / 10.6.4 / 10.3.8 / '
+            '10.6.5) for every auto pattern in ltr and rtl without exception, static positions, centring, shrink-to-fit, '
+            'min/max re-entry; absolute_replaced total with exact halves; relative positioning is a translation by the '
+            'CSS 2.1 offset and the identity elsewhere.',
     'note': 'Trusted: Lean kernel, the hand transcription of the Python functions (tied only by the correspondence), the '
             'AST translator of the three float tests, mock boxes. Partial: the content of a line (Pango) is a parameter of '
             'the model (one word or one inline-block per line); multi-word lines are covered by the trace checker only. '
             'Float fragmentation across pages belongs to C01. Theorems with explicit hypotheses (witnesses in '
-            'Witness/C11.lean, nine known findings): abs_equation_h/v and abs_replaced (auto margin ignores the opposite '
-            'margin), float rules (zero-height float sent to the page origin), flow theorems exclude floats met inside '
-            'lines (snapped to the line top; displaced by rtl / text-align shifts), fixed_on_every_page excludes fixed '
-            'boxes collected late (inside an absolutely positioned box); generators avoid min/max-height on containing '
-            'blocks (abs-cb-height-before-min-max) and overlap checks skip shifted tall lines '
-            '(tall-line-aligned-in-strut-band); float widths mirror float-shrink-to-fit-ignores-margins-paddings and '
-            'float-width-ignores-min-max.',
+            'Witness/C11.lean, six known findings): float_no_overlap / float_place_invariants need a non-empty border box '
+            '(zero-height-float-ignores-other-floats); the flow theorems hold for the whole float list, which after a '
+            'restarted line also holds the floats of the abandoned pass (inline-float-laid-out-twice: the reported floats '
+            'are then not as far to their side as they could be); fixed_on_every_page excludes fixed boxes collected late '
+            '(fixed-in-absolute-not-repeated); generators avoid min/max-height on containing blocks '
+            '(abs-cb-height-before-min-max) and fixed boxes whose content crosses the page bottom '
+            '(fixed-box-fragmented-on-own-page, no model: fragmentation); overlap checks skip shifted tall lines '
+            '(tall-line-aligned-in-strut-band). Eight repaired findings are regression theorems (Witness/C11.lean) and '
+            'regression cases (section regressions).',
 }
